@@ -17,12 +17,12 @@ mod typecheck;
 /// driven in-process.
 #[cfg(feature = "verif")]
 pub mod verif {
-    pub use crate::printer::verif::{format_with_ellipsis, Pretty};
-    pub use crate::render::{Renderer, VerifRefresh};
     use crate::data::DisplayConfig;
     use crate::pipeline::OutputMode;
+    pub use crate::printer::verif::{format_with_ellipsis, Pretty};
     use crate::printer::{agg_printer, raw_printer};
     use crate::render::{RenderConfig, TerminalConfig, TerminalSize};
+    pub use crate::render::{Renderer, VerifRefresh};
     use std::io::Write;
     use std::time::Duration;
 
